@@ -1,5 +1,5 @@
 """Child process for C20: runs ONE producer between two marker stat() calls.
-usage: python -m vf.c20_producer <producer> <workdir> <prestate: absent|previous>
+usage: python -m vf.c20_producer <producer> <workdir> <prestate: absent|previous> [<output directory>]
 The final path is <workdir>/final.<ext>.  Prints 'RESULT ok' or 'RESULT raised <type>' at the end."""
 import json
 import logging
@@ -48,7 +48,7 @@ def main():
 
     build.install()
     ext = {"status": "json", "create_zip": "zip", "make_zip": "zip", "download": "bin", "render_rl": "pdf", "render_odf": "odt"}[producer]
-    final = os.path.join(workdir, "final." + ext)
+    final = os.path.join(sys.argv[4] if len(sys.argv) > 4 else workdir, "final." + ext)
     result = "ok"
     # ---- preparation (outside the bracket) -----------------------------------------------------
     if producer == "status":
